@@ -13,6 +13,7 @@
 // files are back to the start level after everything is closed.
 #include "vf.h"
 #include "xpair.h"
+#include <sys/wait.h>
 
 #include <algorithm>
 #include <atomic>
@@ -296,10 +297,55 @@ public:
         g_roots[0] = g_roots[0];
     }
 
+    Outcome first_use_probe(Case &c, uint32_t sel)
+    {
+        int pfd[2];
+        if (pipe(pfd) < 0) return Outcome::pass();
+        pid_t pid = fork();
+        if (pid == 0) {
+            dup2(pfd[1], 1);
+            dup2(pfd[1], 2);
+            close(pfd[0]);
+            close(pfd[1]);
+            setenv("VF_C15_FIRSTUSE", std::to_string(sel).c_str(), 1);
+            char *av[] = {(char *)"c15-first-use", nullptr};
+            execv("/proc/self/exe", av);
+            _exit(127);
+        }
+        close(pfd[1]);
+        std::string out;
+        char buf[4096];
+        ssize_t n;
+        while ((n = read(pfd[0], buf, sizeof(buf))) > 0) if (out.size() < 200000) out.append(buf, n);
+        close(pfd[0]);
+        int st = 0;
+        waitpid(pid, &st, 0);
+        c.cls("first-use-by-several-threads-at-once");
+        count("first_use_probes");
+        if (WIFEXITED(st) && WEXITSTATUS(st) == 0 && out.find("ThreadSanitizer") == std::string::npos) return Outcome::pass();
+        c.trace += out.substr(0, 6000);
+        size_t w = out.find("WARNING: ThreadSanitizer");
+        std::string head = w == std::string::npos ? out.substr(0, 300) : out.substr(w, out.find('\n', w) - w);
+        size_t fr = out.find("/repo/");
+        if (fr == std::string::npos) fr = out.find("libxcm/");
+        std::string where = fr == std::string::npos ? "" : out.substr(out.rfind(" in ", fr) == std::string::npos ? fr : out.rfind(" in ", fr), 120);
+        where = where.substr(0, where.find('\n'));
+        return failf("C15: the first XCM sockets of a fresh process, created by %d threads at the same moment: %s%s (child %s)", 2 + (int)(sel % 3), head.c_str(), where.c_str(),
+                     WIFSIGNALED(st) ? ("killed by signal " + std::to_string(WTERMSIG(st))).c_str() : ("exit status " + std::to_string(WEXITSTATUS(st))).c_str());
+    }
+
     Outcome run(const Plan &p, Case &c) override
     {
         Dec cfg(p.cfg);
         int nthreads = 2 + (int)cfg.ch(5);
+        {
+            // one case in three starts with the first-use probe in a fresh process
+            uint32_t sel = mix32(p.cfg.size() > 3 ? p.cfg[3] : 0, p.cfg.empty() ? 0 : p.cfg[0]);
+            if (sel % 3 == 0) {
+                Outcome fo = first_use_probe(c, sel >> 2);
+                if (!fo.ok) return fo;
+            }
+        }
         int fds0 = count_fds();
         int ctl0 = count_dir(g_ctl);
         Shared sh;
@@ -337,6 +383,48 @@ public:
 
 } // namespace
 
+// ---- first use: a fresh process whose very first XCM sockets are created by several threads at
+// the same moment (whatever the library sets up lazily on first use is set up under contention).
+// Runs in a child made by exec of this same binary; ThreadSanitizer watches it.
+namespace {
+struct FirstUse { pthread_barrier_t *bar; int kind; };
+void *first_use_thread(void *arg)
+{
+    FirstUse *f = (FirstUse *)arg;
+    static const char *SRV[] = {"tls:127.0.0.1:0", "btls:127.0.0.1:0", nullptr, "utls:127.0.0.1:0", "tcp:127.0.0.1:0", "ux:c15-first-use"};
+    pthread_barrier_wait(f->bar);
+    struct xcm_attr_map *a = xcm_attr_map_create();
+    xcm_attr_map_add_bool(a, "xcm.blocking", false);
+    struct xcm_socket *s;
+    if (f->kind == 2) s = xcm_connect_a("tls:127.0.0.1:1", a);
+    else {
+        if (f->kind == 1) xcm_attr_map_add_str(a, "xcm.service", "bytestream");
+        std::string addr = SRV[f->kind];
+        if (f->kind == 5) addr += "-" + std::to_string((long)getpid()) + "-" + std::to_string((long)pthread_self());
+        s = xcm_server_a(addr.c_str(), a);
+    }
+    xcm_attr_map_destroy(a);
+    if (s) xcm_close(s);
+    return nullptr;
+}
+void first_use_child(unsigned sel)
+{
+    World::get(); // certificates and XCM_TLS_CERT only: no socket has been made in this process
+    int n = 2 + (int)(sel % 3);
+    pthread_barrier_t bar;
+    pthread_barrier_init(&bar, nullptr, n);
+    pthread_t th[4];
+    FirstUse fu[4];
+    for (int i = 0; i < n; i++) { fu[i].bar = &bar; fu[i].kind = (int)((sel >> (3 + 3 * i)) % 6); if (i == 0 && fu[i].kind >= 4) fu[i].kind = 0; pthread_create(&th[i], nullptr, first_use_thread, &fu[i]); }
+    for (int i = 0; i < n; i++) pthread_join(th[i], nullptr);
+    _exit(0);
+}
+} // namespace
+
 namespace vf {
-Harness *make_harness() { return new C15(); }
+Harness *make_harness()
+{
+    if (const char *fu = getenv("VF_C15_FIRSTUSE")) first_use_child((unsigned)strtoul(fu, nullptr, 10));
+    return new C15();
+}
 }
